@@ -663,6 +663,8 @@ def model_env(hyps, extra_vars=(), solvers=('z3',), timeout=2.0, extra_asserts=(
     names = sorted(n for n, s in vars_.items() if s in ('Int', 'Bool', 'String', 'Real'))
     gv = [tm.var(n, vars_[n]) for n in names]
     r = solve.check(list(hyps) + list(extra_asserts), get_values=gv, solvers=solvers, timeout=timeout)
+    if r['verdict'] == 'sat' and not gv:
+        return {}, r               # nothing symbolic on this path (all inputs are constants)
     if r['verdict'] != 'sat' or r['model'] is None:
         return None, r
     env = {}
